@@ -30,6 +30,41 @@ DUP = ['*::Dup::dup']
 OPEN = ['*::Open::open', '*::Open::open_tmpfile']
 
 
+REDIR_MOD = 'yash_semantics::redir::'
+
+
+def _redir_reach(F, sink_pats):
+    """Functions (roots) of the redir module from which a call matching sink_pats is reachable through calls
+    inside the module (a small call graph: the module's helpers may be split or merged by refactoring)."""
+    roots = {b.root for b in F.bodies.values() if b.root.startswith(REDIR_MOD)}
+    direct = set()
+    calls = {}
+    for r in roots:
+        for lb in F.logical(r):
+            for blk, t in lb.calls():
+                if Q.callee_is(t, sink_pats):
+                    direct.add(r)
+                for n in Q.callee_names(t):
+                    if n in roots and n != r:
+                        calls.setdefault(r, set()).add(n)
+    reach = set(direct)
+    changed = True
+    while changed:
+        changed = False
+        for r in roots:
+            if r not in reach and calls.get(r, set()) & reach:
+                reach.add(r)
+                changed = True
+    return reach
+
+
+def _move_fn(F):
+    """The function of the redir module that moves the opened descriptor onto the target (contains Dup::dup2)."""
+    c = [b for b in F.bodies.values() if b.root.startswith(REDIR_MOD) and not b.root.startswith(REDIR_MOD + 'RedirGuard')
+         and Q.find_calls(b, ['*::Dup::dup2'])]
+    return c
+
+
 def _await_through():
     return Q.PROPAGATING_CALLS + Q.AWAIT_CALLS
 
@@ -166,24 +201,21 @@ def r2(cx):
 @RS.rule('C09.R2b', 'K-ORDER', 'the opened descriptor is closed after dup2 on both outcomes of dup2')
 def r2b(cx):
     F = cx.F
-    body = F.main_body(OPEN_AND_MOVE)
-    # the move onto the target may live in a private helper of the module called from open_and_move
-    if not Q.find_calls(body, ['*::Dup::dup2']):
-        for blk, t in body.calls():
-            for n in Q.callee_names(t):
-                if n.startswith('yash_semantics::redir::') and n in F.bodies and Q.find_calls(F.main_body(n), ['*::Dup::dup2']):
-                    body = F.main_body(n)
+    movers = _move_fn(F)
+    cx.require(len(movers) == 1, 'expected exactly one function of the redir module (outside RedirGuard) that dup2s onto the target, '
+               'found %s' % [b.fn for b in movers])
+    body = movers[0]
     cx.fn(body.fn)
     dup2 = Q.find_calls(body, ['*::Dup::dup2'])
-    cx.require(len(dup2) == 1, 'expected one dup2 in open_and_move')
+    cx.require(len(dup2) == 1, 'expected one dup2 in %s' % body.fn)
     db, dt = dup2[0]
     closes = Q.find_calls(body, ['yash_semantics::redir::FdSpec::close'])
-    cx.require(closes, 'FdSpec::close not called in open_and_move')
+    cx.require(closes, 'FdSpec::close not called in %s' % body.fn)
     cx.site('%s: dup2 at %s; fd_spec.close at %s' % (body.fn, body.loc(dt), body.loc(closes[0][1])))
     # every path from dup2 to a Return passes fd_spec.close
     p = Q.must_pass(body, body.succ(db), {b for b, _ in closes})
     if p:
-        cx.violation(OPEN_AND_MOVE, 'dup2-without-close', 'a path from dup2 to return does not close the opened descriptor',
+        cx.violation(body.root, 'dup2-without-close', 'a path from dup2 to return does not close the opened descriptor',
                      loc=body.loc(dt), path=Q.render_path(body, p))
 
 
@@ -256,15 +288,18 @@ def r7(cx):
     body = F.main_body(PERFORM)
     cx.fn(body.fn)
     du = Q.DefUse(body)
-    # the part that touches the target descriptor runs only from perform, after the guard
-    oam = F.callers_of(lambda names, t: OPEN_AND_MOVE in names)
-    cx.require(len(oam) >= 1, 'open_and_move has no caller')
-    for b2, i2, t2 in oam:
-        cx.site('%s calls open_and_move at %s' % (b2.root, b2.loc(t2)))
-        if b2.root != PERFORM:
-            cx.violation(b2.root, 'caller:open_and_move', 'open_and_move (which replaces the target descriptor) may '
-                         'only be called by perform, after the reserved-descriptor check', loc=b2.loc(t2))
-    for b, t in Q.find_calls(body, DUP + [OPEN_AND_MOVE]):
+    # the functions that replace the target descriptor run only from perform (directly or through each other), after the guard
+    movers = {b.root for b in _move_fn(F)}
+    touching = _redir_reach(F, ['*::Dup::dup2']) - {PERFORM}
+    touching = {r for r in touching if not r.startswith(REDIR_MOD + 'RedirGuard')}
+    cx.require(movers, 'no function of the redir module dup2s onto the target')
+    for r in sorted(touching):
+        for b2, i2, t2 in F.callers_of(lambda names, t: r in names):
+            cx.site('%s calls %s at %s' % (b2.root, r, b2.loc(t2)))
+            if b2.root != PERFORM and b2.root not in touching:
+                cx.violation(b2.root, 'caller:%s' % r.split('::')[-1], '%s (which replaces the target descriptor) may only be reached from '
+                             'perform, after the reserved-descriptor check' % r, loc=b2.loc(t2))
+    for b, t in Q.find_calls(body, DUP + sorted(touching)):
         conds = Q.dominating_conditions(F, body, du, b)
         cx.site('%s: %s at %s' % (body.fn, pp.callee(t), body.loc(t)))
         if not any(Q.cond_is_call(org, ['yash_semantics::redir::is_cloexec']) and lab == ('bool', False)
@@ -612,3 +647,23 @@ def r5(cx):
         if fn not in seen:
             cx.violation(fn, 'guard-missing', 'this command kind no longer creates a RedirGuard: its redirections would not be undone',
                          loc=None)
+
+
+
+@RS.rule('C09.R1d', 'K-ORDER', 'the target descriptor is saved before anything is opened for the redirection (an open could otherwise land on the closed target and be mistaken for its old contents)')
+def r1d(cx):
+    F = cx.F
+    body = F.main_body(PERFORM)
+    cx.fn(body.fn)
+    saves = [(b, t) for b, t in Q.find_calls(body, DUP) if any(a.get('cdef') == 'yash_env::io::MIN_INTERNAL_FD' for a in t['a'])]
+    cx.require(len(saves) == 1, 'the save (dup to MIN_INTERNAL_FD) was not found in perform')
+    openers = _redir_reach(F, OPEN + ['yash_semantics::redir::here_doc::open_fd']) - {PERFORM}
+    sites = [(b, t) for b, t in body.calls() if Q.callee_is(t, OPEN + sorted(openers))]
+    cx.site('perform: save at %s; %d call(s) that can open a descriptor: %s' % (body.loc(saves[0][1]), len(sites),
+                                                                              sorted({pp.callee(t).split("::")[-1] for _, t in sites})))
+    cx.require(sites, 'perform calls nothing that opens a descriptor (anchor moved?)')
+    for b, t in Q.check_dominated(body, saves, sites):
+        cx.violation(PERFORM, 'open-before-save:%s' % pp.callee(t).split('::')[-1], 'a descriptor can be opened (%s) before the target '
+                     'descriptor has been saved: when the target is closed and is the lowest free number, the new file lands on it, the '
+                     'save then copies the NEW file, and undoing the redirection restores it instead of closing the target'
+                     % pp.callee(t), loc=body.loc(t))
